@@ -89,4 +89,16 @@ PLAN = {
                 quick=[("c15", "release", 600), ("c15", "checked", 300)],
                 thorough=[("c15", "release", 20000), ("c15", "checked", 6000)],
                 assumptions=[]),
+    "C16": dict(level="exploration",
+                rule=("sender = FlacStreamWriter emitting 1-8 frames with independently drawn rate/channels/depth/length (through "
+                      "benign write faults); (1) refflac decodes every frame from its own header; transport = concatenation, or "
+                      "garbage (no 0xFF / 0xFF without sync / sync look-alikes / truncated real headers / runs of 0xFF) before and "
+                      "between frames, optionally dropping frames; receiver = FlacStreamReader over a BufRead source with drawn "
+                      "refill segmentation and EINTR rate, the caller retrying interrupted reads; scenario c16sweep takes streams "
+                      "<= 1 KiB through every single split point and through EINTR at every fill_buf call index; one receive = one "
+                      "evaluation; distinct = distinct I/O event sequences"),
+                exhaustive_subspaces=["c16sweep: every split point 1..len-1; EINTR at every fill_buf call index for two segmentations"],
+                quick=[("c16", "release", 20000), ("c16sweep", "release", 300)],
+                thorough=[("c16", "release", 1000000), ("c16", "checked", 100000), ("c16sweep", "release", 20000)],
+                assumptions=["a returned frame that refflac finds checksum-valid somewhere on the wire is not counted as fabricated"]),
 }
